@@ -160,6 +160,18 @@ def run(rep, tier, seed, replay):
                 else:
                     exp = "ok" if d <= 49 else ("err" if d > RECURSION_LIMIT else "any")
                 add(path, "decode", nest(d, how), {"site": "nesting:" + how, "fault": "nest", "detail": d, "msg": rec["name"], "schema": sch["name"], "expect": exp})
+    # the recursion budget as a model: every check / enter of the real decoder (hook) against spec/PbBudget.tla
+    nested = []
+    for sch in pss:
+        if sch.get("runtime"):
+            for d in (1, 2, 50, 99, 100, 101):
+                nested.append((sch["name"], "KGroup", nest(d, "known-group"), f"nesting:known-group:{d}"))
+            continue
+        rec = [m for m in sch["messages"] if m["name"].startswith("Rec")][0]
+        for how in ("next", "kids", "named", "unknown-group", "unknown-len"):
+            for d in ((1, 50, 51, 100, 101) if tier == "quick" else (1, 2, 49, 50, 51, 99, 100, 101, 150)):
+                nested.append((sch["name"], rec["name"], nest(d, how), f"nesting:{how}:{d}"))
+    budget = pbcheck.budget_check(rep, tier, seed, nested)
     out = gen.run_worker(reqs, tag="c10")
     bad = 0
     maxalloc = 0
@@ -195,7 +207,7 @@ def run(rep, tier, seed, replay):
                 "frame prefixes beyond the payload, and nesting 1..300 of embedded / repeated / map-valued messages, unknown groups and "
                 "unknown payloads around the documented recursion limit of 100; isolated worker with the proportional allocation limit",
         "samples": [{"meta": meta[len(meta) // 2], "input": reqs[len(meta) // 2]["input"][:40]}],
-        "largest_single_allocation_observed": maxalloc, "violations_before_known_filter": bad, "messages_faulted": len(canon), "exhaustive": False,
+        "largest_single_allocation_observed": maxalloc, "violations_before_known_filter": bad, **budget, "messages_faulted": len(canon), "exhaustive": False,
     }
     rep.assumptions = ["inputs are spec-derived; the runtime-only codecs (String / Vec<u8> targets, packed encoders, btree maps, groups as fields, wrapper messages) are exercised through the hand-written messages of harness/gencases/src/pbkinds.rs",
                        "recursion budget as built: a message nested more than 100 levels below the top-level message is an error, up to 100 it decodes"]
